@@ -84,6 +84,10 @@ type histOpts struct {
 	CloseScopes   bool // allow explicit scope closes mid-history
 	NoProvClose   bool
 	ResolveWeight int
+	CtxKinds      []int
+	DeadOps       bool // also issue operations on scopes that were closed, and after provider close
+	Cancels       bool // cancel the user context of scopes
+	RepeatClose   bool // close scopes that are already closed / concurrently
 }
 
 type histStats struct {
@@ -94,18 +98,27 @@ type histStats struct {
 
 // run is everything the oracles look at.
 type run struct {
-	Cfg   *kit.Config
-	W     *kit.World
-	M     *kit.Model
-	R     *kit.Runner
-	Build *kit.Obs
-	Stats histStats
+	Cfg    *kit.Config
+	W      *kit.World
+	M      *kit.Model
+	R      *kit.Runner
+	Build  *kit.Obs
+	Stats  histStats
+	Script []Op
 }
 
 func startRun(cfg *kit.Config, order []int) (*run, error) {
+	return startRunWith(cfg, order, nil)
+}
+
+// startRunWith lets the caller prepare the world (fault plan, gates) before Build.
+func startRunWith(cfg *kit.Config, order []int, prep func(*kit.World)) (*run, error) {
 	w, err := kit.NewWorld(cfg)
 	if err != nil {
 		return nil, err
+	}
+	if prep != nil {
+		prep(w)
 	}
 	r := kit.NewRunner(w)
 	x := &run{Cfg: cfg, W: w, M: w.M, R: r}
@@ -140,8 +153,111 @@ func identPool(m *kit.Model, unregistered bool) []kit.Ident {
 	return ids
 }
 
-// genHistory drives a random history on a built provider. It always ends by
-// closing the provider unless opts.NoProvClose.
+// Op is one scripted operation of a history.
+type Op struct {
+	Kind  string       // create, get, close, cancel, pclose, batch, closeN
+	Scope int          // target scope tag (create: parent)
+	Ctx   int          // create: context kind
+	Ident kit.Ident    // get
+	Jobs  [][]batchJob // batch: per goroutine
+	N     int          // closeN: number of concurrent Close calls
+}
+
+type batchJob struct {
+	Tag int
+	ID  kit.Ident
+}
+
+func (o Op) String() string {
+	switch o.Kind {
+	case "create":
+		return fmt.Sprintf("create(<-s%d,ctx%d)", o.Scope, o.Ctx)
+	case "get":
+		return fmt.Sprintf("get(s%d,%s)", o.Scope, o.Ident)
+	case "close", "cancel":
+		return fmt.Sprintf("%s(s%d)", o.Kind, o.Scope)
+	case "closeN":
+		return fmt.Sprintf("close x%d(s%d)", o.N, o.Scope)
+	case "batch":
+		return fmt.Sprintf("batch(%v)", o.Jobs)
+	}
+	return o.Kind
+}
+
+// exec executes one scripted op; ops whose scope was never created are skipped
+// (that happens when a script is replayed under a fault plan).
+func (x *run) exec(o Op) {
+	usable := func(tag int) bool {
+		rec := x.R.Scopes[tag]
+		return rec != nil && rec.Created && x.R.P != nil
+	}
+	switch o.Kind {
+	case "create":
+		if !usable(o.Scope) {
+			// keep tag numbering aligned with the fault-free run
+			x.R.SkipTag()
+			return
+		}
+		rec, _ := x.R.CreateScope(o.Scope, o.Ctx)
+		x.Stats.Creates++
+		if rec.Depth > x.Stats.MaxDepth {
+			x.Stats.MaxDepth = rec.Depth
+		}
+	case "get":
+		if usable(o.Scope) {
+			x.R.Resolve(o.Scope, o.Ident)
+			x.Stats.Resolves++
+		}
+	case "close":
+		if o.Scope != 0 && usable(o.Scope) {
+			x.R.CloseScope(o.Scope)
+			x.Stats.Closes++
+		}
+	case "closeN":
+		if o.Scope != 0 && usable(o.Scope) {
+			var wg sync.WaitGroup
+			start := make(chan struct{})
+			for i := 0; i < o.N; i++ {
+				wg.Add(1)
+				go func() { defer wg.Done(); <-start; x.R.CloseScope(o.Scope) }()
+			}
+			close(start)
+			wg.Wait()
+			x.Stats.Closes++
+		}
+	case "cancel":
+		if o.Scope != 0 && usable(o.Scope) {
+			x.R.CancelScope(o.Scope)
+		}
+	case "pclose":
+		if x.R.P != nil {
+			x.R.CloseProvider()
+		}
+	case "batch":
+		var wg sync.WaitGroup
+		start := make(chan struct{})
+		for _, js := range o.Jobs {
+			wg.Add(1)
+			go func(js []batchJob) {
+				defer wg.Done()
+				<-start
+				for _, j := range js {
+					if usable(j.Tag) {
+						x.R.Resolve(j.Tag, j.ID)
+					}
+				}
+			}(js)
+		}
+		close(start)
+		wg.Wait()
+		x.Stats.Batches++
+	}
+	x.Stats.Steps = append(x.Stats.Steps, o.String())
+	x.Script = append(x.Script, o)
+}
+
+// genHistory drives a random history on a built provider, recording it as a
+// script. It always ends by closing the provider unless opts.NoProvClose.
 func (x *run) genHistory(rt *rapid.T, o histOpts) {
 	ids := identPool(x.M, o.Unregistered)
 	steps := rapid.IntRange(1, o.MaxSteps).Draw(rt, "steps")
@@ -151,6 +267,9 @@ func (x *run) genHistory(rt *rapid.T, o histOpts) {
 	}
 	for i := 0; i < steps; i++ {
 		live := x.R.LiveScopes()
+		if len(live) == 0 {
+			break
+		}
 		k := rapid.IntRange(0, rw+4).Draw(rt, "op")
 		switch {
 		case k == 0 || k == 1: // create scope
@@ -164,13 +283,8 @@ func (x *run) genHistory(rt *rapid.T, o histOpts) {
 				continue
 			}
 			parent := rapid.SampledFrom(cands).Draw(rt, "parent")
-			ck := rapid.IntRange(0, 3).Draw(rt, "ctxkind")
-			rec, _ := x.R.CreateScope(parent, ck)
-			x.Stats.Creates++
-			if rec.Depth > x.Stats.MaxDepth {
-				x.Stats.MaxDepth = rec.Depth
-			}
-			x.Stats.Steps = append(x.Stats.Steps, fmt.Sprintf("create(s%d<-s%d,ctx%d)", rec.Tag, parent, ck))
+			ck := rapid.SampledFrom(o.ctxKinds()).Draw(rt, "ctxkind")
+			x.exec(Op{Kind: "create", Scope: parent, Ctx: ck})
 		case k == 2 && o.CloseScopes:
 			var cands []int
 			for _, t := range live {
@@ -182,55 +296,72 @@ func (x *run) genHistory(rt *rapid.T, o histOpts) {
 				continue
 			}
 			t := rapid.SampledFrom(cands).Draw(rt, "closetag")
-			x.R.CloseScope(t)
-			x.Stats.Closes++
-			x.Stats.Steps = append(x.Stats.Steps, fmt.Sprintf("close(s%d)", t))
+			x.exec(Op{Kind: "close", Scope: t})
 		case k == 3 && o.Concurrent:
 			if len(ids) == 0 {
 				continue
 			}
 			n := rapid.IntRange(2, 8).Draw(rt, "goroutines")
-			type job struct {
-				tag int
-				id  kit.Ident
-			}
-			jobs := make([][]job, n)
+			jobs := make([][]batchJob, n)
 			for g := 0; g < n; g++ {
 				m := rapid.IntRange(1, 3).Draw(rt, "jobs")
 				for j := 0; j < m; j++ {
-					jobs[g] = append(jobs[g], job{rapid.SampledFrom(live).Draw(rt, "btag"), rapid.SampledFrom(ids).Draw(rt, "bid")})
+					jobs[g] = append(jobs[g], batchJob{rapid.SampledFrom(live).Draw(rt, "btag"), rapid.SampledFrom(ids).Draw(rt, "bid")})
 				}
 			}
-			var wg sync.WaitGroup
-			start := make(chan struct{})
-			for g := 0; g < n; g++ {
-				wg.Add(1)
-				go func(js []job) {
-					defer wg.Done()
-					<-start
-					for _, j := range js {
-						x.R.Resolve(j.tag, j.id)
-					}
-				}(jobs[g])
+			x.exec(Op{Kind: "batch", Jobs: jobs})
+		case k == 4 && (o.DeadOps || o.Cancels || o.RepeatClose):
+			var dead, cancellable, all []int
+			for _, tag := range x.R.Tags() {
+				rec := x.R.Scopes[tag]
+				if tag == 0 || !rec.Created {
+					continue
+				}
+				all = append(all, tag)
+				if x.R.ScopeDead(tag) {
+					dead = append(dead, tag)
+				} else if rec.Cancel != nil {
+					cancellable = append(cancellable, tag)
+				}
 			}
-			close(start)
-			wg.Wait()
-			x.Stats.Batches++
-			x.Stats.Steps = append(x.Stats.Steps, fmt.Sprintf("batch(%v)", jobs))
+			choice := rapid.IntRange(0, 2).Draw(rt, "deadkind")
+			switch {
+			case choice == 0 && o.DeadOps && len(dead) > 0:
+				t := rapid.SampledFrom(dead).Draw(rt, "deadtag")
+				if rapid.Bool().Draw(rt, "deadcreate") {
+					x.exec(Op{Kind: "create", Scope: t, Ctx: 1})
+				} else if len(ids) > 0 {
+					x.exec(Op{Kind: "get", Scope: t, Ident: rapid.SampledFrom(ids).Draw(rt, "deadid")})
+				}
+			case choice == 1 && o.Cancels && len(cancellable) > 0:
+				x.exec(Op{Kind: "cancel", Scope: rapid.SampledFrom(cancellable).Draw(rt, "canceltag")})
+			case choice == 2 && o.RepeatClose && len(all) > 0:
+				t := rapid.SampledFrom(all).Draw(rt, "reclosetag")
+				if n := rapid.IntRange(1, 6).Draw(rt, "closers"); n == 1 {
+					x.exec(Op{Kind: "close", Scope: t})
+				} else {
+					x.exec(Op{Kind: "closeN", Scope: t, N: n})
+				}
+			}
 		default:
-			if len(ids) == 0 || len(live) == 0 {
+			if len(ids) == 0 {
 				continue
 			}
 			t := rapid.SampledFrom(live).Draw(rt, "rtag")
 			id := rapid.SampledFrom(ids).Draw(rt, "rid")
-			x.R.Resolve(t, id)
-			x.Stats.Resolves++
-			x.Stats.Steps = append(x.Stats.Steps, fmt.Sprintf("get(s%d,%s)", t, id))
+			x.exec(Op{Kind: "get", Scope: t, Ident: id})
 		}
 	}
 	if !o.NoProvClose {
-		x.R.CloseProvider()
+		x.exec(Op{Kind: "pclose"})
 	}
+}
+
+func (o histOpts) ctxKinds() []int {
+	if o.CtxKinds != nil {
+		return o.CtxKinds
+	}
+	return []int{0, 1, 2, 3}
 }
 
 func (x *run) describe() string {
